@@ -25,6 +25,11 @@ def sym_prec(cfg, s):
     return cfg["qp"] if s == "USD" else cfg["bp"]
 
 
+def pair_qp(cfg, pi):
+    """Quote precision of a pair (cross pairs are quoted in a base symbol of another pair)."""
+    return sym_prec(cfg, PAIRS[pi].quote_symbol)
+
+
 class Tr:
     """One transition, as seen by the monitors."""
     __slots__ = ("w", "a", "raised", "placed", "new_loans", "before", "after", "events", "cfg")
@@ -42,7 +47,7 @@ def loan_tuple(lo):
 
 def crashes(tr, on):
     """Internal errors (anything that is not a basana Error) are violations wherever they surface."""
-    if tr.raised and tr.raised[0] == "crash" and (tr.a[0] in on):
+    if tr.raised and tr.raised[0] == "crash" and ((tr.a[0] if tr.a[0] != "bar=" else "bar") in on):
         return [("internal-error", f"{tr.a[0]} raised {tr.raised[1]}: {tr.raised[2]}")]
     return []
 
@@ -72,7 +77,7 @@ def m_ledger(tr):
         total = tr.after.bal.get(s, (ZERO, ZERO, ZERO, ZERO))[3]
         if total != exp[s]:
             bad.append(("ledger", f"{s}: total {total} but initial + fills - fees - interest = {exp[s]}"))
-    if tr.a[0] != "bar":
+    if tr.a[0] not in ("bar", "bar="):
         for oid, o in tr.after.orders.items():
             pb = tr.before.orders.get(oid)
             if pb and (o.amount_filled, o.quote_amount_filled, o.fees) != (pb.amount_filled, pb.quote_amount_filled, pb.fees):
@@ -151,7 +156,7 @@ def m_lifecycle(tr):
             nexp = (1 if filled_now else 0) + (1 if closed_now and not filled_now else 0)
             if w.t == 0:
                 nexp = 0  # before the first event there is no time to stamp an event with
-            if not (tr.raised and tr.a[0] != "bar"):
+            if not (tr.raised and tr.a[0] not in ("bar", "bar=")):
                 if len(got) != nexp:
                     bad.append(("event-count", f"order {k} ({m['kind']}): {len(got)} events for "
                                 f"{'a fill' if filled_now else ''}{' closure' if closed_now else ''} (expected {nexp})"))
@@ -163,7 +168,7 @@ def m_lifecycle(tr):
             elif len(got) != 1 or got[0].order.amount_filled != 0 or not got[0].order.is_open:
                 bad.append(("acceptance-event", f"order {k}: {len(got)} events at acceptance"))
         if got:
-            if info_tuple(got[-1].order) != info_tuple(info) and not (tr.raised and tr.a[0] != "bar"):
+            if info_tuple(got[-1].order) != info_tuple(info) and not (tr.raised and tr.a[0] not in ("bar", "bar=")):
                 bad.append(("last-event-differs", f"order {k}: last event {info_tuple(got[-1].order)[1:8]} vs info "
                             f"{info_tuple(info)[1:8]}"))
             for ev in got:
@@ -208,14 +213,15 @@ def reservation(cfg, m):
     p = PAIRS[m["pair"]]
     res = {}
     amt = m["amt"]
-    if price is None or q(amt * price, cfg["qp"]) == 0:
+    qp = pair_qp(cfg, m["pair"])
+    if price is None or q(amt * price, qp) == 0:
         if m["side"] == "S":
             res[p.base_symbol] = amt
         return res
-    cost = q(amt * price, cfg["qp"])
+    cost = q(amt * price, qp)
     fee = ZERO
     if cfg.get("fee") is not None:
-        fee = q(max(cost * D(str(cfg["fee"][0])) / 100, D(str(cfg["fee"][1]))), cfg["qp"], ROUND_UP)
+        fee = q(max(cost * D(str(cfg["fee"][0])) / 100, D(str(cfg["fee"][1]))), qp, ROUND_UP)
     if m["side"] == "B":
         res[p.quote_symbol] = cost + fee
     else:
@@ -312,7 +318,7 @@ def m_holds(tr):
 # ---- C07 -----------------------------------------------------------------------------------------------------------
 def m_rejected(tr):
     bad = crashes(tr, ("ord", "cancel", "loan", "repay"))
-    if not tr.raised or tr.a[0] == "bar":
+    if not tr.raised or tr.a[0] in ("bar", "bar="):
         return bad
     b, a = tr.before, tr.after
     zero = (ZERO, ZERO, ZERO, ZERO)
@@ -348,11 +354,14 @@ def m_liquidity_precision(tr):
         for s, f in o.fees.items():
             if not on_grid(f - f0.get(s, ZERO), sym_prec(cfg, s)):
                 bad.append(("fee-off-grid", f"fee {f - f0.get(s, ZERO)} {s} off the grid"))
+    # the no-dust clause is about accounts whose initial balances and loan amounts are on the precision grid
+    on_grid_account = all(on_grid(D(str(a_)), sym_prec(cfg, s_)) for s_, a_ in cfg["init"]) and \
+        all(on_grid(lo.borrowed_amount, sym_prec(cfg, lo.borrowed_symbol)) for lo in tr.after.loans.values())
     for s, (av, hold, bor, total) in tr.after.bal.items():
         for name, v in (("available", av), ("hold", hold), ("borrowed", bor)):
-            if not on_grid(v, sym_prec(cfg, s)):
+            if on_grid_account and not on_grid(v, sym_prec(cfg, s)):
                 bad.append(("balance-dust", f"{s} {name}={v} is not a multiple of 1e-{sym_prec(cfg, s)}"))
-    if tr.a[0] == "bar" and not tr.raised:
+    if tr.a[0] in ("bar", "bar=") and not tr.raised:
         _, pi, si = tr.a
         volume = D(SHAPES[si][4]) * D(1).scaleb(-bp)
         # infinite liquidity does not depend on the bar's volume
@@ -514,7 +523,7 @@ def m_loans(tr):
             # who closed it?
             explicit = tr.a[0] == "repay" and not tr.raised and 0 <= tr.a[1] < len(w.lids) and w.lids[tr.a[1]] == lid
             auto = False
-            if tr.a[0] in ("bar", "cancel"):
+            if tr.a[0] in ("bar", "bar=", "cancel"):
                 for k, oid in enumerate(w.ids):
                     ob, oa = tr.before.orders.get(oid), tr.after.orders.get(oid)
                     if ob is not None and ob.is_open and not oa.is_open and w.meta[k]["ar"] and oa.amount_filled > 0:
